@@ -198,7 +198,10 @@ def replay(repo, run, step_timeout=1.0):
       mgr_box["mgr"] = mgr; mgr_ready.set()
       for p in range(P):
         n = run["L"][p] * CH
-        mgr.play([float(i % 3) for i in range(n)], chunk_size=CH)
+        try:
+          mgr.play([float(i % 3) for i in range(n)], chunk_size=CH)
+        except threading.ThreadError:          # the manager was closed by the other thread meanwhile
+          log.append(["play-raises"])
       for c, t in zip(run["choices"], run["targets"]):
         th = players[t]
         if c == 1: th.pause()
